@@ -2,6 +2,7 @@ package harness
 
 import (
 	"fmt"
+	"strings"
 
 	"verifsim/model"
 )
@@ -35,7 +36,30 @@ func (g *G) c11Event(name string) *model.Event {
 			case 1:
 				in.Type = "bytes"
 			case 2:
-				in.Type = g.pick([]string{"uint256", "address", "int64", "bytes32", "bool", "uint8"}) + g.pick([]string{"[]", "[]", "[2]", "[3]"})
+				in.Type = g.pick([]string{"uint256", "address", "int64", "bytes32", "bool", "uint8"}) + g.pick([]string{"[]", "[]", "[2]", "[3]", "[10]", "[12]"})
+			case 3:
+				// an array of dynamic elements, never selected: it only has to
+				// be stepped over correctly
+				in.Type = g.pick([]string{"bytes", "string"}) + g.pick([]string{"[]", "[2]", "[1]"})
+				ev.Inputs = append(ev.Inputs, in)
+				continue
+			case 4:
+				// a tuple of static components, selected inside; a component may
+				// bear the name of a top-level input (names are compared on the
+				// top level only)
+				in.Type = "tuple"
+				for k := 0; k < g.between(1, 3); k++ {
+					c := model.Input{Name: fmt.Sprintf("a%dc%d", i, k), Type: g.pick(allIntTypes)}
+					if i > 0 && g.chance(50) {
+						c.Name = ev.Inputs[g.R.IntN(i)].Name
+					}
+					if g.chance(70) {
+						c.Column = fmt.Sprintf("k%d_%d_%s", i, k, g.pick([]string{"x", "val", "who", "amt"}))
+					}
+					in.Components = append(in.Components, c)
+				}
+				ev.Inputs = append(ev.Inputs, in)
+				continue
 			}
 		}
 		if g.chance(60) {
@@ -44,8 +68,12 @@ func (g *G) c11Event(name string) *model.Event {
 		ev.Inputs = append(ev.Inputs, in)
 	}
 	if !hasSelected(ev) {
-		i := g.R.IntN(len(ev.Inputs))
-		ev.Inputs[i].Column = fmt.Sprintf("k%d_sel", i)
+		for _, i := range g.R.Perm(len(ev.Inputs)) {
+			if t := ev.Inputs[i].Type; t != "tuple" && !strings.HasPrefix(t, "bytes[") && !strings.HasPrefix(t, "string[") {
+				ev.Inputs[i].Column = fmt.Sprintf("k%d_sel", i)
+				break
+			}
+		}
 	}
 	// at most one selected array
 	seen := false
@@ -58,7 +86,14 @@ func (g *G) c11Event(name string) *model.Event {
 		}
 	}
 	if !hasSelected(ev) {
-		ev.Inputs[0].Column = "k0_sel"
+		if t := ev.Inputs[0].Type; t == "tuple" {
+			ev.Inputs[0].Components[0].Column = "k0_sel"
+		} else if strings.HasPrefix(t, "bytes[") || strings.HasPrefix(t, "string[") {
+			ev.Inputs[0].Type = "uint256"
+			ev.Inputs[0].Column = "k0_sel"
+		} else {
+			ev.Inputs[0].Column = "k0_sel"
+		}
 	}
 	return ev
 }
